@@ -1,9 +1,14 @@
 pub mod vergen;
 pub mod c01;
+pub mod c02;
+pub mod c03;
+pub mod c04;
+pub mod c05;
+pub mod c06;
 pub mod c14;
 
 use crate::engine::Property;
 
 pub fn all() -> Vec<Property> {
-    vec![c01::property(), c14::property()]
+    vec![c01::property(), c02::property(), c03::property(), c04::property(), c05::property(), c06::property(), c14::property()]
 }
